@@ -162,7 +162,16 @@ func reimportHistory(ws map[string]*tracew.Writer, seed int64, run, depth int) e
 			return err
 		}
 		s.afterImport = false
-		if r.Intn(6) == 0 || b == depth-1 {
+		// exports are taken at random heights, more often from states with validators waiting for a slot (Pending, with power) or jailed
+		rich := false
+		if lst, err := project.Locking(s.C); err == nil {
+			for _, v := range lst.Val {
+				if v.Exists && ((v.Status == "Pending" && v.Power > 0) || v.Status == "Downgrade") {
+					rich = true
+				}
+			}
+		}
+		if r.Intn(6) == 0 || b == depth-1 || (rich && r.Intn(3) == 0) {
 			nc, err := s.exportImport(ws, emitX)
 			if err != nil {
 				return err
